@@ -561,6 +561,7 @@ def route_cases(rng, quick):
     value out of range, a missing method, a cancel function returning true, no data, no callbacks.  The expectation
     is the one of the comma expression itself: the route must not matter."""
     cases = []
+    groups = {}
     for route in range(1, 11):
         for m in range(N_METHODS):
             b = baseline(m, 8)
@@ -576,16 +577,56 @@ def route_cases(rng, quick):
             variants.append(kws[:pos] + [d] + kws[pos:])
             if not quick or (m + route) % 3 == 0:
                 variants.append([list(kws[0])] + kws + [list(kws[0])])
-            for v in variants:
-                cases.append({"N": 8, "mask": 7, "kws": v, "gen": "route", "route": route})
+            for vi, v in enumerate(variants):
+                groups.setdefault((route, min(vi, 1)), []).append({"N": 8, "mask": 7, "kws": v, "gen": "route", "route": route})
         b = baseline((route * 7) % N_METHODS, 8)
         for kws, N, mask in [(b + [P(KW_K, "S", hexf(4.0))], 8, 7), (b + [P(KW_TD, "I", 0)], 8, 7),
                              ([P(KW_K, "I", 4)], 8, 7), (b + [P(18, "X", 2)], 8, 7), (b, 0, 7), (b, 8, 0),
                              (b + [P(18, "X", 1), P(17, "P", 1)], 8, 7)]:
             cases.append({"N": N, "mask": mask, "kws": kws, "gen": "route", "route": route})
+    # round robin over (route, with / without a duplicate): neighbouring requests differ in route and kind, so that the
+    # first few failures of a broken route are of different kinds
+    keys = sorted(groups)
+    head = []
+    while any(groups[k] for k in keys):
+        for k in keys:
+            if groups[k]:
+                head.append(groups[k].pop(0))
+    cases = head + cases
     if not quick:
         for c in random_cases(rng, 1500) + duplicate_cases(rng, True):
             cases.append(dict(c, gen="route", route=rng.randrange(1, 11)))
+    return cases
+
+
+def sequence_cases(rng, quick):
+    """wave 4 (state that survives a call): requests made one after the other in ONE process.  The earlier ones are
+    requests that end by themselves (rejected by the validation in every documented way, cancelled, or a feature-only
+    method that runs to its end on 8 samples); the last one is observed and must come out as in a fresh process."""
+    cases = []
+    quick_end = [16, 12, 14]                        # PassThru, PCA, RandomProjection: run to the end at once
+    for m in range(N_METHODS):
+        b = baseline(m, 8)
+        finals = [b, b + [P(KW_TD, "I", 0)], b + [list(b[0])], b + [P(KW_K, "S", hexf(4.0))], b + [P(18, "X", 2)]]
+        befores = [
+            [{"N": 8, "mask": 7, "kws": b + [list(b[0])]}],                               # the same method, a duplicate
+            [{"N": 8, "mask": 7, "kws": b + [P(KW_TD, "I", 0)]}],                         # out of range
+            [{"N": 8, "mask": 7, "kws": b + [P(KW_K, "S", hexf(4.0))]}],                  # wrong type
+            [{"N": 8, "mask": 7, "kws": b + [P(18, "X", 2)]}],                            # cancelled
+            [{"N": 0, "mask": 7, "kws": b}],                                              # no data
+            [{"N": 8, "mask": 4, "kws": b}],                                              # callbacks missing (or feature-only)
+            [{"N": 8, "mask": 7, "kws": baseline(quick_end[m % 3], 8)}],                  # another method, runs to its end
+            [{"N": 8, "mask": 7, "kws": []}],                                             # no method
+            [{"N": 8, "mask": 7, "kws": b + [P(KW_TD, "I", 0)]}, {"N": 8, "mask": 7, "kws": baseline(16, 8) + [P(KW_TD, "I", 1)]},
+             {"N": 8, "mask": 7, "kws": b + [list(b[0])], "route": 4}],
+        ]
+        # a predecessor that would start a long computation is not used: feature-only methods accept mask 4 and run
+        if m in FEATURE_ONLY and m not in quick_end:
+            befores[5] = [{"N": 8, "mask": 4, "kws": b + [P(KW_TD, "I", 0)]}]
+        for fi, f in enumerate(finals):
+            picks = range(len(befores)) if not quick else [(m + fi * 2) % len(befores), (m + fi * 2 + 4) % len(befores)]
+            for bi in picks:
+                cases.append({"N": 8, "mask": 7, "kws": f, "gen": "sequence", "before": befores[bi]})
     return cases
 
 
@@ -740,6 +781,9 @@ def impl_line(case):
                         [str(a) for a in case["args"]] + [str(case["value"])])
     # bit0 stop at the first features vector() call; bits 1-2 (wave 3): call from inside an application's own
     # `#pragma omp parallel` region (2), with nested parallelism on (6)
+    if case.get("before"):
+        # wave 4: earlier requests made in the SAME process; only this one is observed
+        return "S " + " / ".join([impl_line(b) for b in case["before"]] + [impl_line({k: v for k, v in case.items() if k != "before"})])
     # bits 3-6 (wave 4): the C++ route the set takes from the comma expression to embed() (ROUTES)
     flags = stopf_of(case) | {0: 0, 1: 2, 2: 6}[case.get("omp", 0)] | (int(case.get("route", 0)) << 3)
     parts = ["R", str(case["N"]), str(case["mask"]), str(flags), str(len(case["kws"]))]
@@ -914,7 +958,10 @@ def record_mismatch(ctx, stats, shown, detail):
 
 def via(case):
     r = case.get("route", 0)
-    return " [the set reached embed() by route %d: %s]" % (r, ROUTES.get(r, "?")) if r else ""
+    t = " [the set reached embed() by route %d: %s]" % (r, ROUTES.get(r, "?")) if r else ""
+    if case.get("before"):
+        t += " [after %d earlier request(s) in the same process]" % len(case["before"])
+    return t
 
 
 def judge(ctx, case, io, mo, stats):
@@ -927,6 +974,8 @@ def judge(ctx, case, io, mo, stats):
     shown = dict(case, impl=io["outcome"], counters=cnt)
     if case.get("route"):
         shown["route_is"] = ROUTES.get(case["route"], "?")
+    if case.get("before"):
+        shown["before_is"] = "the requests under 'before' were made first, in the same process; this one is the observed one"
     if mo["outcome"] == "stuck":
         record_mismatch(ctx, stats, shown, "the generated copy constructor / operator= / merge give the model no set to run "
                         "embed() on along this route")
@@ -1345,6 +1394,7 @@ def build_cases(ctx, doc, gen, rng, quick, ftab=None):
     cases += explicit_default_cases(doc)
     cases += omp_region_cases()
     cases += route_cases(rng, quick)
+    cases += sequence_cases(rng, quick)
     cases += callback_cases()
     cases += wrong_type_cases(rng, quick)
     cases += duplicate_cases(rng, quick)
@@ -1441,7 +1491,8 @@ def run(ctx):
         if c["kws"] and c["N"] > 0:
             distinct.add(hashlib.sha1(json.dumps([c["N"], c["mask"], c["kws"], c.get("omp", 0),
                                                   c["gen"] == "omp_region_thread_limit"] +
-                                                 ([c["route"]] if c.get("route") else [])).encode()).hexdigest())
+                                                 ([c["route"]] if c.get("route") else []) +
+                                                 ([c["before"]] if c.get("before") else [])).encode()).hexdigest())
         if "cell" in c:
             cellset.add(tuple(c["cell"]))
     for c in probes:
@@ -1472,7 +1523,7 @@ def run(ctx):
              "request that leaves it unset; omp_region = 9 request kinds per method made from inside an application's "
              "own `#pragma omp parallel num_threads(3)` region by every thread at once (nested parallelism off / on), "
              "and once more with OMP_THREAD_LIMIT=2 below OMP_NUM_THREADS=4: every thread must get the serial outcome.",
-        samples=[{k: c[k] for k in ("N", "mask", "kws", "gen", "route") if k in c} for c in cases[:3] + cases[len(cases) // 2:len(cases) // 2 + 3]],
+        samples=[{k: c[k] for k in ("N", "mask", "kws", "gen", "route", "before") if k in c} for c in cases[:3] + cases[len(cases) // 2:len(cases) // 2 + 3]],
         histogram={"generators": hist, "implementation_outcomes": stats["outcomes"],
                    "cells_covered(method,keyword,side)": len(cellset),
                    "echo_checked": stats.get("echo_checked", 0),
@@ -1518,12 +1569,16 @@ def replay(ctx, case):
         c["omp"] = case["omp"]
     if case.get("route"):
         c["route"] = int(case["route"])
+    if case.get("before"):
+        c["before"] = case["before"]
     stats = {"outcomes": {}}
     io = run_impl(ctx, exe, [c])[0]
     mo = run_model(ctx, mexe, [c])[0]
     print("request        : N=%d callbacks(kernel,distance,features)=%s keywords=%s" % (
         c["N"], [bool(c["mask"] & 1), bool(c["mask"] & 2), bool(c["mask"] & 4)], c["kws"]))
     print("route          : %d = %s" % (c.get("route", 0), ROUTES.get(c.get("route", 0), "?")))
+    if c.get("before"):
+        print("made before it, in the same process: %s" % json.dumps(c["before"]))
     print("tapkee::embed  : %s  counters %s" % (io["outcome"], io["cnt"]))
     print("documented     : %s" % mo["spec"])
     print("model (tables) : %s  trace %s" % (mo["outcome"], ",".join(mo["trace"])))
